@@ -730,10 +730,9 @@ theorem encodeOrPanic_status (c : Ctx) (now : Int) (da sa : UInt8) (fc : Functio
 theorem doActiveIdle_good (c : Ctx) (now : Int) (hpre : Pre c) (sr np : Option Nat) (coll : Nat)
     (hst : c.s.st = .activeIdle sr np coll) : Good c.apps.length (doActiveIdle c now) := by
   unfold doActiveIdle
-  rw [hst]
-  simp only
+  -- rewrite `handleLostToken` to a constructor pair BEFORE the iota steps (kernel: 60 s otherwise)
   rcases handleLostToken_good c now hpre (Or.inl ⟨_, _, _, hst⟩) with ⟨c1, h1, hs1, hst1, hrx1, -⟩ | ⟨c1, r, h1, hg⟩
-  · rw [h1]
+  · rw [h1, hst]
     simp only
     have hst1' : c1.s.st = .activeIdle sr np coll := by rw [hst1]; exact hst
     have hlen : c1.apps.length = c.apps.length := by rw [hs1.apps]
@@ -763,7 +762,7 @@ theorem doActiveIdle_good (c : Ctx) (now : Int) (hpre : Pre c) (sr np : Option N
         (Or.inl ⟨_, _, _, hst1'⟩) (receiveAll_flags _ _ _ _ hrx)
       rw [h2]
       exact good_ok _ hs2.inv (by rw [hs2.apps]; exact hlen)
-  · rw [h1]; exact hg
+  · rw [h1, hst]; exact hg
 
 /-- Static facts about parameters and scripts that `set_offline` (= `new`) needs to re-establish the invariant. -/
 theorem inv_new (p : Params) (apps : Apps) (h1 : p.address < p.hsa) (h2 : p.hsa ≤ 126) (hs : ScriptsOk apps) :
@@ -842,10 +841,8 @@ theorem foldListen_good (now : Int) : ∀ (calls : List (Telegram × Bool)) (c :
 theorem doListenToken_good (c : Ctx) (now : Int) (hpre : Pre c) (sr : Option Nat) (coll : Nat)
     (hst : c.s.st = .listenToken sr coll) : Good c.apps.length (doListenToken c now) := by
   unfold doListenToken
-  rw [hst]
-  simp only
   rcases handleLostToken_good c now hpre (Or.inr ⟨_, _, hst⟩) with ⟨c1, h1, hs1, hst1, hrx1, -⟩ | ⟨c1, r, h1, hg⟩
-  · rw [h1]
+  · rw [h1, hst]
     simp only
     have hst1' : c1.s.st = .listenToken sr coll := by rw [hst1]; exact hst
     have hlen : c1.apps.length = c.apps.length := by rw [hs1.apps]
@@ -887,7 +884,7 @@ theorem doListenToken_good (c : Ctx) (now : Int) (hpre : Pre c) (sr : Option Nat
         (Or.inl ⟨hs1.on, _, _, hst1'⟩)
       rw [h2]
       exact good_ok _ hi2 (by rw [ha2]; exact hlen)
-  · rw [h1]; exact hg
+  · rw [h1, hst]; exact hg
 
 theorem scriptsOk_set (apps : Apps) (i : Nat) (script : List AppAnswer) (h : ScriptsOk apps)
     (hs : apps[i]? = some script) : ScriptsOk (apps.set i script.tail) := by
